@@ -42,7 +42,7 @@ func genC09(t *rapid.T) c09Case {
 	valid := rapid.OneOf(GenTitle(), rapid.SampledFrom([]string{"alice", "bob", "René D", "x"}))
 	invalid := rapid.SampledFrom([]string{"bad\x00name", "two\nlines", "bell\x07", "esc\x1b[31m"})
 	one := rapid.Custom(func(t *rapid.T) c09Action {
-		a := c09Action{Kind: rapid.SampledFrom([]string{"mutate", "mutate", "mutate", "mutate", "push", "pull", "pull", "clock"}).Draw(t, "kind"),
+		a := c09Action{Kind: rapid.SampledFrom([]string{"mutate", "mutate", "mutate", "mutate", "mutate", "push", "pull", "pull", "clock", "packrefs"}).Draw(t, "kind"),
 			R: rapid.IntRange(0, 1).Draw(t, "r"), Ident: rapid.IntRange(0, c.NIdent-1).Draw(t, "ident")}
 		if a.Kind == "mutate" {
 			a.Field = rapid.SampledFrom([]string{"name", "name", "login", "email", "avatar"}).Draw(t, "field")
@@ -87,6 +87,13 @@ func genC09(t *rapid.T) c09Case {
 	plan = append(plan, c09Action{Kind: "push", R: 1})
 	for i := 0; i < la; i++ {
 		plan = append(plan, mut(0))
+	}
+	if rapid.IntRange(0, 2).Draw(t, "planPack") == 0 {
+		// the references of r0 are packed, then the other identities are edited there: loose references next to packed ones
+		plan = append(plan, c09Action{Kind: "packrefs", R: 0})
+		for i := 1; i < c.NIdent; i++ {
+			plan = append(plan, c09Action{Kind: "mutate", R: 0, Ident: i, Field: "email", Value: fmt.Sprintf("after-gc-%d@example.org", i)})
+		}
 	}
 	plan = append(plan, c09Action{Kind: "pull", R: 0, UseCache: rapid.Bool().Draw(t, "planCache")})
 	c.Actions = append(plan, rapid.SliceOfN(one, 0, 16).Draw(t, "actions")...)
@@ -195,12 +202,18 @@ func runC09(tb report.TB, rep *report.Reporter, c c09Case) {
 
 	var shapes []string
 	rejected, accepted := 0, 0
-	clockMoves, clocksBehind := 0, 0
+	clockMoves, clocksBehind, packs := 0, 0, 0
 	for ai, a := range c.Actions {
 		r := repos[a.R]
 		id := ids[a.Ident%len(ids)]
 		where := fmt.Sprintf("action #%d %s r%d ident%d", ai, a.Kind, a.R, a.Ident%len(ids))
 		switch a.Kind {
+		case "packrefs":
+			// what `git gc` does in that repository between two commands
+			if res := RunGit(filepath.Join(dir, fmt.Sprintf("r%d", a.R)), "pack-refs", "--all", "--prune"); res.Code != 0 {
+				tb.Fatalf("harness: pack-refs: %s", res.Out)
+			}
+			packs++
 		case "clock":
 			var v uint64
 			fmt.Sscan(a.Value, &v)
@@ -433,6 +446,9 @@ func runC09(tb report.TB, rep *report.Reporter, c c09Case) {
 	}
 	if clocksBehind > 0 {
 		classes = append(classes, "edit-with-clocks-behind-the-previous-version")
+	}
+	if packs > 0 {
+		classes = append(classes, "references-packed-between-actions")
 	}
 	rep.Case(fmt.Sprintf("%d|%s|rej%v", c.NIdent, strings.Join(shapes, " "), rejected > 0), nontrivial, classes, c)
 }
